@@ -143,6 +143,15 @@ async fn ignores(cases: &str, base: &str) {
 	w("proj2/sub/.gitignore", "from_sub_gitignore\n");
 	w("proj2/extra.ign", "from_explicit_file\n");
 	w("proj2/filters.txt", "*.keep\n");
+	// "gitexcl": the git project again, with a .git/config that names its own excludes file (core.excludesFile)
+	let _ = std::fs::remove_dir_all(base.join("proj3"));
+	std::fs::create_dir_all(base.join("proj3/.git/info")).unwrap();
+	std::fs::create_dir_all(base.join("proj3/sub")).unwrap();
+	for f in [".git/HEAD", ".git/info/exclude", ".gitignore", ".ignore", ".hgignore", "sub/.gitignore", "extra.ign", "filters.txt"] {
+		std::fs::copy(proj.join(f), base.join("proj3").join(f)).unwrap();
+	}
+	w("home/custom_excl", "from_custom_excl\n");
+	w("proj3/.git/config", &format!("[core]\n\texcludesFile = {}\n", base.join("home/custom_excl").display()));
 	std::env::set_var("HOME", &home);
 	std::env::set_var("XDG_CONFIG_HOME", home.join(".config"));
 	for v in ["APPDATA", "USERPROFILE", "GIT_CONFIG_GLOBAL", "GIT_CONFIG_SYSTEM", "WATCHEXEC_IGNORE_FILES"] {
@@ -152,11 +161,11 @@ async fn ignores(cases: &str, base: &str) {
 	std::env::set_current_dir(&proj).unwrap();
 	let ids = [
 		(".gitignore", 1), (".ignore", 2), (".hgignore", 3), ("sub/.gitignore", 4), (".git/info/exclude", 5),
-		("git/ignore", 6), ("watchexec/ignore", 7), ("extra.ign", 9),
+		("git/ignore", 6), ("watchexec/ignore", 7), ("custom_excl", 8), ("extra.ign", 9),
 	];
 	for case in read_cases(cases) {
 		// layouts: the default project is a git repository; "novcs" is the same tree without any VCS metadata directory
-		let proj = if case["layout"] == "novcs" { base.join("proj2") } else { proj.clone() };
+		let proj = if case["layout"] == "novcs" { base.join("proj2") } else if case["layout"] == "gitexcl" { base.join("proj3") } else { proj.clone() };
 		std::env::set_current_dir(&proj).unwrap();
 		let mut argv = vec!["watchexec".to_owned(), "--project-origin".into(), proj.to_string_lossy().into_owned()];
 		argv.extend(strs(&case["args"]).into_iter().map(|a| a.replace("@PROJ@", &proj.to_string_lossy())));
